@@ -28,6 +28,9 @@ Decided structurally:
                 on every path from the label to the goto - a gate whose failing branch is a STOP error, the increment of a counter that
                 a test reads and that is not reset inside the cycle, or the raising of the goto guard's bound to the current value;
                 the three cycles of the published simplex routine cl1 are exempt by name with the algorithm's argument
+  C08.scan      every sscanf that writes a local holding no value yet (no initialiser, no earlier assignment) has its result tested so
+                that a failed conversion cannot reach a use of that local: the failing side of the test reports / leaves / assigns, or
+                all reads the scan can reach (CFG, up to the next write) lie inside the success branch
 NOT decided: memory safety / absence of undefined behaviour for all byte sequences in general (no sound buffer or alias
 analysis of the 125 k-line engine is available here); std-library exceptions raised by input-dependent code are only
 censused (C08.stdthrow, informational).
@@ -235,6 +238,7 @@ def run(P, R, tier):
     grow_rule(P, R)
     ladder_rule(P, R, mt)
     gotoloop_rule(P, R, mt)
+    scan_rule(P, R)
     stdthrow_census(P, R, reach)
 
 
@@ -290,6 +294,169 @@ def ladder_rule(P, R, mt):
     if badc:
         R.info["C08.ladder caller testing another value"] = "%s:%d" % (badc[0]["q"], badc[1][1])
     R.ok(RULE, "callers", "%d direct comparisons of the result, all with MASS_BALANCE" % n) if not badc else R.ok(RULE, "callers", "a caller tests another value (informational)")
+
+
+_CFG_CACHE = {}
+
+
+def reachable_reads(f, call, targets):
+    """reads of the target locals that the value written (or not) by `call` can reach: forward over the CFG from the atom holding
+    the call, not continuing past an atom that writes the target again (assignment or another scan into it)"""
+    key = f["key"] if "key" in f else id(f)
+    if key not in _CFG_CACHE:
+        _CFG_CACHE[key] = T.CFG(f)
+    cfg = _CFG_CACHE[key]
+    start = None
+    for nd in cfg.nodes:
+        if T.is_node(nd["n"]) and any(y is call for y in T.walk(nd["n"])):
+            start = nd["id"]
+            break
+    if start is None:
+        return []
+
+    def writes(n):
+        for y in T.walk(n):
+            if y[0] == "Bin" and y[2] == "=" and T.strip_casts(y[3])[0] == "Ref" and T.strip_casts(y[3])[3] in targets:
+                return True
+            if y[0] == "Call" and y is not call and any(T.strip_casts(a)[0] == "Un" and T.strip_casts(a)[2] == "&" and T.text(T.strip_casts(a)[3]) in targets for a in y[4]):
+                return True
+        return False
+
+    def reads_in(n):
+        addr = set()
+        for y in T.walk(n):
+            if y[0] == "Un" and y[2] == "&":
+                addr.add(id(T.strip_casts(y[3])))
+        lhs = set()
+        for y in T.walk(n):
+            if y[0] == "Bin" and y[2] == "=":
+                lhs.add(id(T.strip_casts(y[3])))
+        return [y for y in T.walk(n) if y[0] == "Ref" and y[2] == "local" and y[3] in targets and id(y) not in addr and id(y) not in lhs]
+    out = list(reads_in(cfg.nodes[start]["n"]))
+    seen, st = {start}, [start]
+    while st:
+        x = st.pop()
+        for sx in cfg.nodes[x]["succ"]:
+            if sx in seen:
+                continue
+            seen.add(sx)
+            n = cfg.nodes[sx]["n"]
+            if T.is_node(n):
+                if writes(n):
+                    continue
+                out += reads_in(n)
+            st.append(sx)
+    return out
+
+
+def scan_rule(P, R):
+    """"no undefined behaviour / bad input is reported": the readers classify a token as a number by its first character
+    (copy_token: digit, '.', '-'), so `-`, `.` or `-abc` reach sscanf and fail there.  A scan that fails leaves its target unchanged;
+    if the target is a local with no value yet, the definition receives an indeterminate value.  Every sscanf that writes such a local
+    must therefore have its result tested in a way that covers failure: a test whose failing side reports / leaves (error_msg, return,
+    break, continue) or assigns the target, or a success test (== N) with every later read of the target inside its then-branch."""
+    RULE = "C08.scan"
+    R.rule(RULE, "every sscanf into a local that holds no value yet has its result tested so that a failed conversion cannot reach a use of the local", minimum=25)
+    n = 0
+    LEAVE = ("Return", "Break", "Continue", "Goto", "Throw")
+
+    def side_handles(br, targets):
+        if not T.is_node(br):
+            return False
+        for y in T.walk(br):
+            if y[0] in LEAVE:
+                return True
+            if y[0] == "Call" and T.callee_name(y) in ("error_msg", "malloc_error", "snerr", "incr_input_error"):
+                return True
+            if y[0] == "Bin" and y[2] == "=" and T.strip_casts(y[3])[0] == "Ref" and T.strip_casts(y[3])[3] in targets:
+                return True
+            if y[0] == "Bin" and y[2] == "=" and T.text(y[3]).replace(" ", "") == "error":
+                return True
+        return False
+
+    for key, f in sorted(P.functions.items()):
+        if not f.get("body"):
+            continue
+        calls = [c for c in T.calls(f["body"]) if T.callee_name(c) == "sscanf" and len(c[4]) >= 3]
+        if not calls:
+            continue
+        decl_init = {}
+        for x in T.walk(f["body"]):
+            if x[0] == "Decl":
+                for d in x[2]:
+                    decl_init.setdefault(d[0], []).append((T.is_node(d[2]), x[1], d[2]))
+        ifs = [x for x in T.walk(f["body"]) if x[0] == "If"]
+        for call in calls:
+            targets = []
+            for a in call[4][2:]:
+                a = T.strip_casts(a)
+                if a[0] == "Un" and a[2] == "&" and T.strip_casts(a[3])[0] == "Ref" and T.strip_casts(a[3])[2] == "local":
+                    v = T.strip_casts(a[3])[3]
+                    has_init = any(i for i, _, _ in decl_init.get(v, []))
+                    prior = any(x[0] == "Bin" and x[2] in T.ASSIGN_OPS and T.strip_casts(x[3])[0] == "Ref" and T.strip_casts(x[3])[3] == v and x[1] < call[1]
+                                for x in T.walk(f["body"]))
+                    # a value handed out through a pointer argument before the scan (copy_token(token, &cptr, &l))
+                    prior = prior or any(c2[1] < call[1] and c2 is not call and any(T.strip_casts(z)[0] == "Un" and T.strip_casts(z)[2] == "&" and T.text(T.strip_casts(z)[3]) == v for z in c2[4])
+                                         for c2 in T.calls(f["body"]) if T.callee_name(c2) != "sscanf")
+                    if not has_init and not prior:
+                        targets.append(v)
+            if not targets:
+                continue
+            n += 1
+            inst = "%s@%d(%s)" % (f["q"].split("::")[-1], call[1], ",".join(targets))
+            # the result: tested directly in a condition, or through a variable
+            resvar = None
+            for x in T.walk(f["body"]):
+                if x[0] == "Bin" and x[2] == "=" and T.strip_casts(x[4]) is call:
+                    resvar = T.text(x[3]).replace(" ", "")
+                if x[0] == "Decl":
+                    for d in x[2]:
+                        if T.is_node(d[2]) and T.strip_casts(d[2]) is call:
+                            resvar = d[0]
+            handled = False
+            for x in ifs:
+                if x[1] < call[1]:
+                    continue
+                cond = x[2]
+                direct = any(c is call for c in T.calls(cond))
+                via = resvar is not None and x[1] <= call[1] + 12 and any(y[0] == "Ref" and y[3] == resvar for y in T.walk(cond) if T.is_node(y) and y[0] == "Ref")
+                if not (direct or via):
+                    continue
+                # find the comparison that involves the result
+                cmpn = None
+                for y in T.walk(cond):
+                    if y[0] == "Bin" and y[2] in ("==", "!=", "<", "<=", ">", ">="):
+                        sides = (T.strip_casts(y[3]), T.strip_casts(y[4]))
+                        if any(sd is call or (sd[0] == "Ref" and resvar is not None and sd[3] == resvar) for sd in sides):
+                            cmpn = y
+                if cmpn is None:
+                    continue
+                op = cmpn[2]
+                k = const_int(cmpn[4]) if const_int(cmpn[4]) is not None else const_int(cmpn[3])
+                # which side is the failing side
+                if op in ("!=", "<") or (op == "==" and k == 0) or (op == "<=" and k == 0):
+                    fail, succ = x[3], x[4]
+                    # `a || scan != 1`: still the then-branch
+                else:
+                    fail, succ = x[4], x[3]
+                if side_handles(fail, targets):
+                    handled = True
+                    break
+                if not T.is_node(fail) and op in ("==", ">=", ">"):
+                    # success test without else: every later read of the targets lies inside the then-branch
+                    inside = set(id(y) for y in T.walk(succ))
+                    reads = reachable_reads(f, call, targets)
+                    if all(id(y) in inside for y in reads):
+                        handled = True
+                        break
+            if handled:
+                R.ok(RULE, inst, "result tested; a failed conversion cannot reach a use")
+            else:
+                R.violation(RULE, inst, "sscanf writes `%s`, which holds no value yet, and its result is %s: a token that passes the first-character number test but is not a number "
+                            "(`-`, `.`, `-abc`) leaves an indeterminate value in the definition and no ERROR is reported"
+                            % (", ".join(targets), "discarded" if resvar is None else "not tested for failure"), file=f["file"], line=call[1], function=f["q"])
+    if n < 25:
+        R.anchor_missing(RULE, "only %d scans into value-less locals found" % n)
 
 
 def gotoloop_rule(P, R, mt):
